@@ -79,7 +79,8 @@ def st_case(draw):
     x = draw(A.arrays(sh, dt))
     return {"x": x, "axes": axes, "axes_tuple": draw(st.booleans()), "center": center, "norm": norm,
             "oshape": oshape, "oshape_tuple": draw(st.booleans()), "yseed": draw(A.seeds),
-            "layout": draw(st.sampled_from(A.LAYOUTS))}
+            "layout": draw(st.sampled_from(A.LAYOUTS)), "positional": draw(st.sampled_from([False, False, True])),
+            "oshape_array": draw(st.sampled_from([False, False, False, True]))}
 
 
 # ------------------------------------------------------------------ oracle
@@ -175,6 +176,8 @@ def check_case(case):
     ax_arg = None if axes is None else (tuple(axes) if case["axes_tuple"] else list(axes))
     osh = list(sh) if oshape is None else list(oshape)
     os_arg = None if oshape is None else (tuple(oshape) if case["oshape_tuple"] else list(oshape))
+    if oshape is not None and case.get("oshape_array"):
+        os_arg = np.array(oshape)          # the docstring documents oshape as "None or array of ints"
     resized = osh != sh
     single = x.dtype in (np.dtype("complex64"), np.dtype("float32"), np.dtype("float64"))
     rel = 2e-5 if single else 1e-12
@@ -192,7 +195,11 @@ def check_case(case):
     outs = {}
     for name, fn, inverse in (("fft", sp.fft, False), ("ifft", sp.ifft, True)):
         want = ref_dft(xr, axn, center, inverse, norm)
-        ok, got = _call(r, name, lambda: fn(x, oshape=os_arg, axes=ax_arg, center=center, norm=norm))
+        if case.get("positional"):
+            # the documented positional order fft(input, oshape, axes, center, norm)
+            ok, got = _call(r, name, lambda: fn(x, os_arg, ax_arg, center, norm))
+        else:
+            ok, got = _call(r, name, lambda: fn(x, oshape=os_arg, axes=ax_arg, center=center, norm=norm))
         if ok:
             key = "%s:values:%s%s" % (name, ck, ":oshape" if resized else "")
             _cmp(r, key, got, want, nx * _opnorm(osh, axn, inverse, norm), rel, want_dtype, cfg)
